@@ -136,8 +136,11 @@ def translate(prog, graph, real_by_triple):
 
 # ---------------------------------------------------------------- running
 
+CACHED = [False]   # tables served through gripper.DriverCache over slow scans (the deployment form)
+
+
 def run_harness(ctx, tag, worlds, graphs, reqs, jobs=10, timeout=1500, req_timeout="60s"):
-    lines = [dict(setup=True, worlds=worlds, graphs=graphs)] + reqs
+    lines = [dict(setup=True, worlds=worlds, graphs=graphs, cached=CACHED[0])] + reqs
     inp = ctx.write_ndjson("%s_in.ndjson" % tag, lines)
     outp = os.path.join(ctx.scratch, "%s_out.ndjson" % tag)
     ctx.harness(["gripperh", "-j", str(jobs), "-timeout", req_timeout], input_path=inp, output_path=outp, timeout=timeout)
@@ -416,6 +419,14 @@ def run(ctx):
     totals = dict(states=0, nontriv=0, bad=0, worlds=0, writes=0, lead=0)
     for label, family, sim, depth, cap, maxstates in plans(ctx):
         traversal_part(ctx, trav, label, family, sim, depth, cap, maxstates, totals)
+    # once more with every table behind gripper.DriverCache and scans that take a while: lookups by field reach a
+    # cache that is still loading (the same states, the same expectations)
+    CACHED[0] = True
+    try:
+        label, family, sim, depth, cap, maxstates = plans(ctx)[0]
+        traversal_part(ctx, trav, label, family, sim, depth, cap, 6000 if ctx.tier == "quick" else 20000, totals)
+    finally:
+        CACHED[0] = False
     writes_part(ctx, "hand", totals)
     if ctx.tier != "quick":
         writes_part(ctx, "gen", totals)
